@@ -61,7 +61,7 @@ def prime():
 @st.composite
 def strat_case(draw, tier, descending=False, min_chans=1):
     mx = 40 if tier == "quick" else 100
-    lay = draw(vs.layout(depths=vs.DEPTHS_STREAM, max_samples=mx, min_samples=4, max_files=2, max_chans=16,
+    lay = draw(vs.layout(depths=vs.DEPTHS_STREAM, max_samples=mx, min_samples=4, max_files=3, max_chans=16,
                          max_chan_units=2, min_chans=min_chans))
     lay["data_kind"] = "f32int" if lay["nbits"] == 32 else "full"
     ch = draw(vs.channelisation(lay["nchans"]))
@@ -236,7 +236,8 @@ def strat_readers(draw, tier):
 @st.composite
 def strat_dedisp(draw, tier):
     c = draw(strat_case(tier, descending=True, min_chans=2))
-    c["md_target"] = draw(st.integers(0, 12))
+    c["md_target"] = draw(st.one_of(st.integers(0, 12), st.just(0)))
+    c["subsample_dm"] = draw(st.booleans())
     nch = c["layout"]["nchans"]
     c["nsub"] = draw(st.sampled_from([k for k in range(1, nch + 1) if nch % k == 0]))
     return c
@@ -248,6 +249,9 @@ def check_dedisp(case, ctx):
     flo = s.fch1 + (s.nchans - 1) * s.foff
     md_t = min(case["md_target"], max(0, s.eff // 2 - 1))
     dm = 0.0 if md_t == 0 else md_t * s.tsamp / (KDM * (flo**-2 - s.fch1**-2))
+    if md_t == 0 and case.get("subsample_dm") and s.nchans > 1:
+        # a real DM whose sweep across the band is below half a sample: every delay rounds to zero, the DM is still applied
+        dm = 0.3 * s.tsamp / (KDM * (flo**-2 - s.fch1**-2))
     delays = np.asarray(rd.header.get_dmdelays(dm)).reshape(-1)
     md = int(delays.max())
     if delays.min() < 0 or md >= s.eff:
@@ -255,6 +259,8 @@ def check_dedisp(case, ctx):
     lab = list(s.labels)
     if dm > 0:
         lab.append("dm>0")
+        if md == 0:
+            lab.append("dm>0_all_delays_zero")
     ts = s.call("dedisperse", lambda: rd.dedisperse(dm, **s.kw))
     require(ts.header.nsamples == ts.data.size == s.eff - md and ts.header.nchans == 1, "dedisperse:shape",
             f"{s.ctxt} dm={dm}: data {ts.data.size} header {ts.header.nsamples} defined {s.eff - md}")
